@@ -1,0 +1,49 @@
+//go:build verif
+// +build verif
+
+package decoder
+
+import (
+	"fmt"
+	"sync"
+)
+
+// Verification hook (build tag verif): records which type every slot of the
+// address-indexed decoder cache was first used for.
+
+var verifState struct {
+	mu       sync.Mutex
+	owners   map[uintptr]uintptr
+	slots    map[uintptr]uintptr
+	problems []string
+}
+
+func verifSlot(fast bool, index, typeptr uintptr) {
+	if !fast {
+		return
+	}
+	verifState.mu.Lock()
+	defer verifState.mu.Unlock()
+	if verifState.owners == nil {
+		verifState.owners = map[uintptr]uintptr{}
+		verifState.slots = map[uintptr]uintptr{}
+	}
+	verifState.slots[typeptr] = index
+	if owner, ok := verifState.owners[index]; !ok {
+		verifState.owners[index] = typeptr
+	} else if owner != typeptr && len(verifState.problems) < 100 {
+		verifState.problems = append(verifState.problems,
+			fmt.Sprintf("decoder: cache slot %d first used for type %#x is used for type %#x", index, owner, typeptr))
+	}
+}
+
+// VerifReport returns the problems seen so far and the slot used for each type on the fast path.
+func VerifReport() ([]string, map[uintptr]uintptr) {
+	verifState.mu.Lock()
+	defer verifState.mu.Unlock()
+	slots := make(map[uintptr]uintptr, len(verifState.slots))
+	for k, v := range verifState.slots {
+		slots[k] = v
+	}
+	return append([]string(nil), verifState.problems...), slots
+}
